@@ -208,6 +208,45 @@ impl Elem for PU {
         self.0 = id as u32
     }
 }
+// mixed pairs: plain data of the layout of the tracked heap values (16 bytes, align 8), so that exactly one side has drop glue
+#[derive(Clone, Copy)]
+struct P16T {
+    id: u64,
+    _pad: u64,
+}
+#[derive(Clone, Copy)]
+struct P16U {
+    id: u64,
+    _pad: u64,
+}
+impl Elem for P16T {
+    const IS_T: bool = true;
+    const TRACKED: bool = false;
+    const HAS_ID: bool = true;
+    fn make(id: u64) -> Self {
+        P16T { id, _pad: 7 }
+    }
+    fn id(&self) -> u64 {
+        self.id
+    }
+    fn set_id(&mut self, id: u64) {
+        self.id = id
+    }
+}
+impl Elem for P16U {
+    const IS_T: bool = false;
+    const TRACKED: bool = false;
+    const HAS_ID: bool = true;
+    fn make(id: u64) -> Self {
+        P16U { id, _pad: 9 }
+    }
+    fn id(&self) -> u64 {
+        self.id
+    }
+    fn set_id(&mut self, id: u64) {
+        self.id = id
+    }
+}
 // C10: u8-sized untracked output for the ZST input, and a ZST output for a sized input
 struct B1(u8);
 impl Elem for B1 {
@@ -457,6 +496,8 @@ fn main() {
             "big" => run_case::<BigT, BigU>(n, extra, &script),
             "zst" => run_case::<ZT, ZU>(n, extra, &script),
             "u32" => run_case::<PT, PU>(n, extra, &script),
+            "p2t" => run_case::<P16T, TokU>(n, extra, &script),
+            "t2p" => run_case::<TokT, P16U>(n, extra, &script),
             // C10 matrix (T = TokT, 16 bytes / align 8, unless stated)
             "m_align_up" => run_case::<TokT, U16A16>(n, extra, &script),
             "m_align_down" => run_case::<TokT, U16A4>(n, extra, &script),
